@@ -90,7 +90,9 @@ Ack(x, id) == IF id \in x.e.held THEN Emit([x EXCEPT !.e.held = @ \ {id}], AckOp
 
 (* the k-th message published by the frame triggered by `trig` gets the causal id <<trig, k>> *)
 NPub(x) == Cardinality({k \in 1..Len(x.o) : x.o[k].op = "pub"})
-NextId(x) == Append(x.t, NPub(x) + 1)
+(* causal ids: <<trigger id, ordinal of the publication in its frame>>; a handler that runs again after a crash   *)
+(* publishes a DIFFERENT message (a new uuid in the code), hence the incarnation in the ordinal                   *)
+NextId(x) == Append(x.t, NPub(x) + 1 + 10 * crashes)
 
 (* ---- branch metadata -------------------------------------------------------- *)
 BM(x, ex) == Fn(x.e.bm, ex, <<>>)                     \* fan-out id -> results record
@@ -333,6 +335,10 @@ TaskDelegate(x, id, ev, red) ==
        ELSE EmitAll(x1, <<Pub(st.fn, [kind |-> "rpc", corr |-> id, fn |-> st.fn, payload |-> ev.data.v, exec |-> ev.exec]),
                           HistOp(ev.exec, "LambdaFunctionScheduled")>>)
 
+(* the code mints a fresh uuid per run of a Parallel/Map delegate: the event that is entering, and the incarnation *)
+(* of the engine that runs it (a redelivered event fans out AGAIN, under a new id)                              *)
+FanId(id) == IF crashes = 0 THEN id ELSE Append(id, 100 + crashes)
+
 (* asl_state_Parallel_delegate *)
 ParallelDelegate(x, id, ev) ==
     LET st == Def[ev.state]
@@ -346,7 +352,7 @@ ParallelDelegate(x, id, ev) ==
         RECURSIVE Launch(_, _)
         Launch(y, k) ==
             IF k > n THEN y
-            ELSE LET f == [Frame(id, k - 1, n, 0, NoIdx, ev.data.v, ev.state) EXCEPT !.retry = ev.retry]
+            ELSE LET f == [Frame(FanId(id), k - 1, n, 0, NoIdx, ev.data.v, ev.state) EXCEPT !.retry = ev.retry]
                      b == Event(NextId(y), ex, st.branches[k], ev.data, Append(ev.branch, f), 0)
                  IN Launch(Emit(y, Pub("inst", b)), k + 1)
     IN Ack(Launch(x1, 1), id)
@@ -362,7 +368,7 @@ MapDelegate(x, id, ev) ==
         mcc == IF st.mc = 0 THEN n ELSE st.mc
         end == IF start + mcc < n THEN start + mcc ELSE n
         base == IF reentry THEN SubSeq(ev.branch, 1, Len(ev.branch) - 1) ELSE ev.branch
-        mapid == IF reentry THEN Top(ev.branch).id ELSE id
+        mapid == IF reentry THEN Top(ev.branch).id ELSE FanId(id)
         x0 == IF ~reentry /\ n > 0 /\ ev.branch # <<>> /\ HasBM(x, ex) /\ Top(ev.branch).id \in DOMAIN BM(x, ex) /\ Top(ev.branch).index # NoIdx
               THEN SetRes(x, ex, Top(ev.branch).id, [BM(x, ex)[Top(ev.branch).id] EXCEPT !.state[Top(ev.branch).index + 1] = "Map"])
               ELSE x
@@ -608,6 +614,11 @@ Drained == (Quiescent /\ AllDone) =>
               /\ unacked \subseteq {u \in unacked : u.m.kind = "reply"}
               /\ eng.held = {} /\ DOMAIN eng.bm = {} /\ DOMAIN eng.pending = {} /\ DOMAIN eng.cancellers = {}
 NoLoss == Quiescent => AllDone
+(* with a crash budget (C04): whatever the crash point and the schedule, once nothing is left to do every *)
+(* execution has announced a terminal status -- nothing is silently lost.  (The announcements themselves  *)
+(* may repeat: a handler cut short by the crash runs again.)                                              *)
+TerminalReached(k) == \E i \in 1..Len(notes[k]) : IsTermStatus(notes[k][i])
+NoLossUnderCrash == Quiescent => \A k \in Execs : TerminalReached(k)
 
 (* what the machine computes when no task fails (big-step; branch and item order) *)
 RECURSIVE Eval(_, _)
